@@ -287,6 +287,14 @@ def build(net: Dict[str, Any], seed: int):
     blocks = []
     for b in net["blocks"]:
         brs = [make_branch(k, C, i) for i, k in enumerate(b["kinds"])]
+        if net.get("tie"):
+            # weight sharing between two candidate layers of one block (tied Parameters, two different module objects):
+            # every pair of plain conv branches with identical weight shapes shares the weight of the first
+            convs = [m for m, k in zip(brs, b["kinds"]) if k == "layer"]
+            for i, a in enumerate(convs):
+                for c in convs[i + 1:]:
+                    if c.weight.shape == a.weight.shape and c.weight is not a.weight:
+                        c.weight = a.weight
         blocks.append(SuperNetModule(brs, gumbel_softmax=bool(net.get("gumbel")), hard_softmax=bool(net.get("hard0"))))
     model = cl["GenNet"](net, blocks)
     with torch.no_grad():
@@ -901,6 +909,11 @@ def random_net(rng, tier: str) -> Dict[str, Any]:
            "hard0": rng.random() < 0.3, "single": rng.random() < 0.3, "blocks": blocks}
     if rng.random() < 0.3:
         net["stem2"] = True
+    big = [b for b in blocks if len(b["kinds"]) >= 5]
+    if big and rng.random() < 0.35:          # branches 2 and 4 (0-based) of a plain-conv kind have equal weight shapes
+        b = rng.choice(big)
+        b["kinds"][2] = b["kinds"][4] = "layer"
+        net["tie"] = True
     if rng.random() < 0.5:
         nm = random_names(rng, nb)
         if nm:
